@@ -408,3 +408,25 @@ func VH_C09_created_tubes_get_distinct_ids_within_their_class() {
 		verifCover("mixed")
 	}
 }
+
+// Unreliable.receive is called from the muxer's only receive goroutine with a
+// peer-controlled frame: it must return in every state - full queue, FIN,
+// closed tube - or every other tube starves and Stop can never finish.
+//
+//verif:prop C11
+//verif:bounds unreliable tube in state created / initiated / closed, receive queue (capacity 2) empty, partly filled or full; frame with symbolic flags and 0..2 data bytes
+//verif:cover returned
+func VH_C11_unreliable_receive_never_blocks_the_receive_loop() {
+	log := logrus.NewEntry(logrus.New())
+	u := &Unreliable{id: verifU8("tube-id"), recv: newDC(2), send: newDC(2), initiated: make(chan struct{}), closed: make(chan struct{}), log: log}
+	u.state.Store(state(verifPick("tube-state", int(created), int(initiated), int(closed))))
+	fill := verifPick("queued", 0, 1, 2)
+	for i := 0; i < fill; i++ {
+		u.recv.C <- []byte{1}
+	}
+	n := verifPick("datalen", 0, 2)
+	f := &frame{tubeID: u.id, flags: metaToFlags(verifU8("flags")), dataLength: uint16(n), data: verifBytes("data", n), frameNo: verifU32("frameNo")}
+	verifBlockingIsViolation()
+	_ = u.receive(f)
+	verifCover("returned")
+}
